@@ -462,6 +462,71 @@ def _autonames(nn, jnp, jax, fails, tier):
         fails.append(dict(inputs=dict(program='auto-named Dense inside and after the lifted construct', transform=kind), observed='outputs differ from the Python control flow', violated='outputs-equal'))
     except Exception as e:  # noqa
       fails.append(dict(inputs=dict(program='auto-named Dense inside and after the lifted construct', transform=kind), observed=f'raised {e!r}'[:300], violated='init-tree-equal'))
+  # sub-module ATTRIBUTES declared out of alphabetical order (encoder before decoder) under class transforms
+  class Enc(nn.Module):
+    @nn.compact
+    def __call__(self, x):
+      n = self.variable('state', 'n', lambda: jnp.zeros(()))
+      if self.is_mutable_collection('state') and not self.is_initializing():
+        n.value = n.value + 1.0
+      return nn.Dense(3)(x)
+
+  class Dec(nn.Module):
+    @nn.compact
+    def __call__(self, x):
+      n = self.variable('state', 'n', lambda: jnp.zeros(()))
+      if self.is_mutable_collection('state') and not self.is_initializing():
+        n.value = n.value + 10.0
+      return nn.tanh(nn.Dense(3, use_bias=False)(x)) * 2.0
+
+  class Seq2(nn.Module):
+    encoder: nn.Module
+    decoder: nn.Module
+
+    def __call__(self, x):
+      return self.decoder(self.encoder(x))
+  plain2 = Seq2(encoder=Enc(), decoder=Dec())
+  v2 = plain2.init(jax.random.key(0), x)
+  want2 = plain2.apply(v2, x, mutable=['state'])
+  for kind, T in (('jit', nn.jit), ('remat', nn.remat), ('map_variables', lambda c: nn.map_variables(c, 'state', mutable=True))):
+    cases += 1
+    try:
+      lifted2 = T(Seq2)(encoder=Enc(), decoder=Dec())
+      vl = lifted2.init(jax.random.key(0), x)
+      got2 = lifted2.apply(v2, x, mutable=['state'])
+      if jax.tree_util.tree_map(np.shape, dict(vl)) != jax.tree_util.tree_map(np.shape, dict(v2)) or not _close(jax.tree_util.tree_map(np.asarray, want2), jax.tree_util.tree_map(np.asarray, got2)):
+        fails.append(dict(inputs=dict(program='module with attributes encoder, decoder (declared in that order)', transform=kind), observed='init tree / outputs / updated state differ from the plain module (sub-modules bound to each other\'s scopes?)', violated='outputs-equal'))
+    except Exception as e:  # noqa
+      fails.append(dict(inputs=dict(program='module with attributes encoder, decoder (declared in that order)', transform=kind), observed=f'raised {e!r}'[:300], violated='outputs-equal'))
+  # nn.switch / nn.cond with a `variables` filter that leaves a collection out: a branch writing it still raises
+  cases += 1
+
+  class Filtered(nn.Module):
+    use_switch: bool
+
+    @nn.compact
+    def __call__(self, x):
+      st = self.variable('state', 'v', lambda: jnp.zeros(()))
+
+      def writes(mdl, x):
+        s2 = mdl.variable('state', 'v', lambda: jnp.zeros(()))
+        s2.value = s2.value + 1.0
+        return x
+
+      def reads(mdl, x):
+        return x * 2.0
+      if self.is_initializing():
+        return x
+      if self.use_switch:
+        return nn.switch(0, [writes, reads], self, x, variables='params')
+      return nn.cond(True, writes, reads, self, x, variables='params')
+  for use_switch in (False, True):
+    vf = Filtered(use_switch).init(jax.random.key(0), x)
+    try:
+      Filtered(use_switch).apply(vf, x, mutable=['state'])
+      fails.append(dict(inputs=dict(program='branch writes a collection that the variables= filter does not lift', transform='switch' if use_switch else 'cond'), observed='the write was accepted', violated='immutable-write-raises'))
+    except Exception:  # noqa
+      pass
   # a write inside the loop condition to a carried collection still raises
   cases += 1
 
